@@ -1,6 +1,6 @@
 (* Property C20 — malformed input data are rejected, and type coercion is lossless. *)
 From Coq Require Import ZArith QArith Qcanon Bool String List.
-From GettsimModel Require Import Num Val Validation Groupings CoupleSpec.
+From GettsimModel Require Import Num Val Validation ValidationFaults Groupings CoupleSpec.
 Import ListNotations.
 Open Scope Z_scope.
 
@@ -56,3 +56,43 @@ Print Assumptions C20_contradictory_joint_assessment_rejected.
 Theorem C20_contradictory_flags_error : forall ps, couple_wf ehep ps -> ~ flags_agree ps -> exists e, sn_id ps = Err e.
 Proof. exact sn_id_rejects. Qed.
 Print Assumptions C20_contradictory_flags_error.
+
+(* ---- the same guarantees in fault-injection form: for EVERY table, whatever its other rows and
+   columns, and for EVERY row position of the fault, the table is rejected ---- *)
+Open Scope string_scope.
+Theorem C20_fault_missing_pid : forall t, find_col "p_id" t = None -> accept t = false.
+Proof. exact missing_pid_rejected. Qed.
+Print Assumptions C20_fault_missing_pid.
+
+Theorem C20_fault_duplicate_pid : forall t pc pids i j x,
+  find_col "p_id" t = Some pc -> as_ints pc = Some pids ->
+  i <> j -> nth_error pids i = Some x -> nth_error pids j = Some x -> accept t = false.
+Proof. exact duplicate_pid_rejected. Qed.
+Print Assumptions C20_fault_duplicate_pid.
+
+Theorem C20_fault_dangling_pointer : forall t pc pids fk c ptrs i q,
+  find_col "p_id" t = Some pc -> as_ints pc = Some pids ->
+  In fk fk_names -> find_col fk t = Some c -> as_ints c = Some ptrs ->
+  nth_error ptrs i = Some q -> q <> -1 -> ~ In q pids -> accept t = false.
+Proof. exact dangling_pointer_rejected. Qed.
+Print Assumptions C20_fault_dangling_pointer.
+
+Theorem C20_fault_self_pointer : forall t pc pids fk c ptrs i p,
+  find_col "p_id" t = Some pc -> as_ints pc = Some pids ->
+  In fk fk_names -> find_col fk t = Some c -> as_ints c = Some ptrs ->
+  nth_error pids i = Some p -> nth_error ptrs i = Some p -> accept t = false.
+Proof. exact self_pointer_rejected. Qed.
+Print Assumptions C20_fault_self_pointer.
+
+Theorem C20_fault_varying_group_input : forall t level idc ids c i j g v w,
+  In level group_levels -> find_col (level ++ "_id") t = Some idc -> as_ints idc = Some ids ->
+  In c t -> ends_with ("_" ++ level) (rc_name c) = true ->
+  nth_error ids i = Some g -> nth_error ids j = Some g ->
+  nth_error (rc_vals c) i = Some v -> nth_error (rc_vals c) j = Some w ->
+  raw_eqb v w = false -> accept t = false.
+Proof. exact varying_group_input_rejected. Qed.
+Print Assumptions C20_fault_varying_group_input.
+
+Theorem C20_fault_duplicate_column : forall t, has_dup (map rc_name t) = true -> accept t = false.
+Proof. exact duplicate_column_rejected. Qed.
+Print Assumptions C20_fault_duplicate_column.
